@@ -63,6 +63,10 @@ Diff(x, e) ==
   (IF x.d # e.d THEN {"d"} ELSE {}) \cup (IF ~DoneMatch(x.dn, e.dn) THEN {"dn"} ELSE {}) \cup
   (IF e.q /\ ~TimersMatch(x, e.tm) THEN {"tm"} ELSE {})
 
+ModelView(y) == [cs |-> y.cs, fatal |-> y.fatal, dn |-> y.dn, w |-> y.w, d |-> y.d, tm |-> y.tm, tr |-> y.tr, sock |-> y.sock,
+                 st |-> y.st, fi |-> y.fi, di |-> y.di, fh |-> y.fh, lost |-> y.lost, cm |-> y.cm, nh |-> Handlers(y), nw |-> Waiters(y),
+                 hl |-> y.calls["hl"], now |-> y.now]
+
 Internal(x) ==
   {y \in
     (IF StartStepEnabled(x) THEN {StartStep(x)} ELSE {}) \cup
@@ -118,7 +122,10 @@ TStep ==
              /\ PrintT(<<"DIAG", tid, l,
                          IF ~CanAdvance(s, e.t) THEN {{"skipped_timer"}}
                          ELSE IF Apply(Advance(s, e.t), e) = {} THEN {{"not_enabled"}}
-                         ELSE {Diff(y, e) : y \in Apply(Advance(s, e.t), e)}>>)
+                         ELSE {Diff(y, e) : y \in Apply(Advance(s, e.t), e)},
+                         \* what the specification expected instead (for the replay report)
+                         IF ~CanAdvance(s, e.t) \/ Apply(Advance(s, e.t), e) = {} THEN {ModelView(s)}
+                         ELSE {ModelView(y) : y \in Apply(Advance(s, e.t), e)}>>)
              /\ FALSE
   /\ l' = l + 1 /\ UNCHANGED tid
 
